@@ -69,8 +69,9 @@ int main(void) { harness(); return 0; }
 /* ---------------------------------------------------------------- native */
 #include <stdio.h>
 #include <setjmp.h>
-static unsigned long long vf_replay[VF_MAXIN];
+static unsigned long long vf_replay[VF_MAXIN], vf_drawn[VF_MAXIN];
 static unsigned vf_nreplay, verif_nin;
+static int vf_dumped;
 static int vf_mode; /* 0 random, 1 replay */
 static unsigned long long vf_seed, vf_digest;
 static int vf_fail;
@@ -98,6 +99,7 @@ static unsigned long long IN(unsigned long long lo, unsigned long long hi) {
     else if (sel == 1) v = hi;
     else v = lo + r % span;
   }
+  if (verif_nin < VF_MAXIN) vf_drawn[verif_nin] = v;
   verif_nin++;
   return v;
 }
@@ -110,9 +112,10 @@ static unsigned char IN_BYTE(void) {
   if (vf_mode == 1) return (unsigned char)IN(0, 255);
   static const char al[] = VF_ALPHABET;
   unsigned long long r = vf_rnd();
+  unsigned char b = ((r & 7) == 0) ? (unsigned char)(r >> 8) : (unsigned char)al[(r >> 8) % (sizeof(al) - 1)];
+  if (verif_nin < VF_MAXIN) vf_drawn[verif_nin] = b;
   verif_nin++;
-  if ((r & 7) == 0) return (unsigned char)(r >> 8);
-  return (unsigned char)al[(r >> 8) % (sizeof(al) - 1)];
+  return b;
 }
 #define ASSUME(c) do { if (!(c)) longjmp(vf_jmp, 1); } while (0)
 #define CHECK(c, msg) do { int vf_c = !!(c); vf_mix(vf_c); if (!vf_c) { vf_fail++; if (!vf_fail_msg) vf_fail_msg = msg; if (vf_mode == 1) printf("ASSERT-FAIL %s\n", msg); } } while (0)
@@ -143,8 +146,16 @@ int main(int argc, char **argv) {
   } else { fprintf(stderr, "usage: %s replay <file> | random <seed> <iters>\n", argv[0]); return 3; }
   for (unsigned long it = 0; it < iters; ++it) {
     verif_nin = 0; vf_fuel = 0; vf_nallocs = 0;
+    int fails_before = vf_fail;
     int j = setjmp(vf_jmp);
     if (j == 0) { harness(); done++; } else { skipped++; vf_mix(0xdead); }
+    if (vf_mode == 0 && vf_fail > fails_before && !vf_dumped && j != 1) {
+      /* a check failed on a pseudo-random input: print the input vector so that the driver can replay it on the real build */
+      vf_dumped = 1;
+      printf("FAILING-INPUTS");
+      for (unsigned i = 0; i < verif_nin && i < VF_MAXIN; ++i) printf(" %llu", vf_drawn[i]);
+      printf("\n");
+    }
     for (unsigned i = 0; i < vf_nallocs; ++i) free(vf_allocs[i]);
     vf_nallocs = 0;
     if (vf_mode == 1 && j == 1) printf("REPLAY-ASSUME-FAILED\n");
